@@ -1,6 +1,7 @@
 //! Verification harness for flurry. Subcommands print one line `JSON {...}` (the result) and,
 //! for each failing input found, a line `FOUND <property> <replay text on one line>`.
 mod api_check;
+mod bulk;
 mod capacity;
 mod conc;
 mod dump;
@@ -247,6 +248,21 @@ fn cmd_capacity(args: &[String]) {
     );
 }
 
+fn cmd_bulk(args: &[String]) {
+    // bulk <seed> <n_docs> <n_maps> <n_par>
+    let seed: u64 = args[0].parse().unwrap();
+    silence_panics();
+    let r = bulk::run(seed, args[1].parse().unwrap(), args[2].parse().unwrap(), args[3].parse().unwrap());
+    for f in r.failures.iter().take(5) {
+        println!("FOUND C19 {}", f);
+    }
+    println!(
+        "JSON {}",
+        json!({"roundtrips": r.roundtrips, "documents": r.documents, "docs_with_repeats": r.docs_with_repeats,
+               "docs_malformed": r.docs_malformed, "par_runs": r.par_runs, "failures": r.failures.len(), "samples": r.samples})
+    );
+}
+
 fn main() {
     let args: Vec<String> = std::env::args().collect();
     if args.len() < 2 {
@@ -256,6 +272,7 @@ fn main() {
     match args[1].as_str() {
         "api" => cmd_api(&args[2..]),
         "seq" => cmd_seq(&args[2..]),
+        "bulk" => cmd_bulk(&args[2..]),
         "capacity" => cmd_capacity(&args[2..]),
         "conc" => cmd_conc(&args[2..]),
         other => {
